@@ -119,6 +119,15 @@ func (cr *ChunkReader) Read(p []byte) (int, error) {
 		}
 		n, err := cr.parseAndRemoveChunkInfo(p[chunkSize:n])
 		n += int(chunkSize)
+		if err == io.EOF && !cr.isEOF {
+			// the terminating chunk has been verified: nothing may follow
+			// it. Reading on to the end of the stream also lets the readers
+			// underneath finish their own verification (the deferred request
+			// signature is checked when the raw body reports its end).
+			if err := cr.expectEnd(); err != nil {
+				return 0, err
+			}
+		}
 		return n, err
 	}
 
@@ -134,6 +143,21 @@ func (cr *ChunkReader) Read(p []byte) (int, error) {
 		return n, io.ErrUnexpectedEOF
 	}
 	return n, err
+}
+
+// expectEnd reads the underlying stream to its end and fails when there is
+// anything left in it
+func (cr *ChunkReader) expectEnd() error {
+	var b [1]byte
+	_, err := io.ReadFull(cr.r, b[:])
+	if err == nil {
+		return errInvalidChunkFormat
+	}
+	if err != io.EOF {
+		return err
+	}
+	cr.isEOF = true
+	return nil
 }
 
 // https://docs.aws.amazon.com/AmazonS3/latest/API/sigv4-streaming.html#sigv4-chunked-body-definition
@@ -431,6 +455,10 @@ func (cr *ChunkReader) parseChunkHeaderBytes(header []byte, l *int) (int64, stri
 		err = readAndSkip(rdr, '\n', '\r', '\n')
 		if err != nil {
 			return cr.handleRdrErr(err, header)
+		}
+		// and nothing after that
+		if _, err := rdr.ReadByte(); err == nil {
+			return 0, "", 0, errInvalidChunkFormat
 		}
 
 		return 0, sig, 0, nil
